@@ -39,7 +39,7 @@ def outline(src, ret_types, log):
 
     def walk(its):
         for it in its:
-            if it.kind == "fn" and it.open is not None and it.parent is not None and it.parent.kind == "impl":
+            if it.kind == "fn" and it.open is not None and ((it.parent is not None and it.parent.kind == "impl") or isinstance(ret_types.get(it.path()), dict)):
                 s = _sig(toks, it.open, it.end)
                 want = ["tokio", "::", "task", "::", "spawn_blocking", "(", "move", "|", "|"]
                 for n in range(len(s) - len(want)):
@@ -73,6 +73,10 @@ def outline(src, ret_types, log):
 
     def emit(a, b):
         for k in range(a, b):
+            if k in pending_after and k not in flushed:
+                # an outlined fn goes directly after the fn it was taken from
+                out.extend(pending_after[k])
+                flushed.add(k)
             out.append((toks[k].text, tline[k]))
 
     by_fn = {}
@@ -80,10 +84,32 @@ def outline(src, ret_types, log):
         by_fn.setdefault(id(j[0]), []).append(j)
     order = sorted(jobs, key=lambda j: j[1])
     pending_after = {}  # token index (fn end) -> text segments
+    flushed = set()
     for it, mv, b0, cl in order:
         key = it.path()
         if key not in ret_types:
             raise ValueError("R-outline: no return type configured for the closure in %s" % key)
+        if isinstance(ret_types[key], dict) and ret_types[key].get("kind") == "blocking":
+            # tokio::task::spawn_blocking(move || BODY) inside a free fn -> spawn_blocking(NAME(ARGS)) + fn NAME(PARAMS) -> RET { BODY }
+            cfg = ret_types[key]
+            e = cl - 1
+            while toks[e].kind in WS:
+                e -= 1
+            is_block = toks[b0].text == "{" and match_close(toks, b0) == e
+            emit(pos, mv)
+            out.append(("%s(%s)" % (cfg["name"], cfg["args"]), tline[mv]))
+            pos = cl
+            seg = [("\nfn %s(%s) -> %s\n" % (cfg["name"], cfg["params"], cfg["ret"]), None)]
+            if not is_block:
+                seg.append(("{\n    ", None))
+            for k in range(b0, e + 1):
+                seg.append((toks[k].text, tline[k]))
+            if not is_block:
+                seg.append(("\n}", None))
+            seg.append(("\n", None))
+            pending_after.setdefault(it.end, []).extend(seg)
+            log("R-outline: closure of spawn_blocking in %s -> fn %s(%s)" % (key, cfg["name"], cfg["args"]))
+            continue
         if isinstance(ret_types[key], dict):
             # tokio::spawn(async move { BODY })  ->  tokio::spawn(Self::NAME(ARGS))  +  async fn NAME(PARAMS) { BODY }
             cfg = ret_types[key]
@@ -154,12 +180,11 @@ def outline(src, ret_types, log):
         pending_after.setdefault(it.end, []).extend(seg)
         log("R-outline: closure of spawn_blocking in %s -> fn verif_blocking(%s)" % (key, args))
     # flush the rest, inserting outlined fns after their enclosing fn
-    ends = sorted(pending_after)
-    for endi in ends:
-        emit(pos, endi)
-        out.extend(pending_after[endi])
-        pos = endi
     emit(pos, len(toks))
+    for endi in sorted(pending_after):
+        if endi not in flushed:      # fn ends at the very end of the file
+            out.extend(pending_after[endi])
+            flushed.add(endi)
     # build text + line map
     text = "".join(t for t, _ in out)
     linemap = []
